@@ -109,56 +109,56 @@ func runCertSign(c *hx.Ctx) {
 
 	// ---- 1. p256.Normalize / Swap / IsNormalized on chosen s (emitted after the corpus witnesses) -------
 	doNormalize := func() {
-	n := p256.VerifN()
-	half := p256.VerifHalfN()
-	one := big.NewInt(1)
-	add := func(a *big.Int, d int64) *big.Int { return new(big.Int).Add(a, big.NewInt(d)) }
-	svals := []*big.Int{big.NewInt(0), one, big.NewInt(2), add(half, -1), half, add(half, 1), add(half, 2), add(n, -2), add(n, -1), n, add(n, 1),
-		new(big.Int).Sub(new(big.Int).Lsh(one, 256), one), new(big.Int).Lsh(one, 255), big.NewInt(127), big.NewInt(128), big.NewInt(255), big.NewInt(256)}
-	for len(svals) < 140 {
-		s := new(big.Int).SetBytes(c.RandBytes(32))
-		if c.Chance(0.3) {
-			s.Rsh(s, uint(c.Intn(250)))
+		n := p256.VerifN()
+		half := p256.VerifHalfN()
+		one := big.NewInt(1)
+		add := func(a *big.Int, d int64) *big.Int { return new(big.Int).Add(a, big.NewInt(d)) }
+		svals := []*big.Int{big.NewInt(0), one, big.NewInt(2), add(half, -1), half, add(half, 1), add(half, 2), add(n, -2), add(n, -1), n, add(n, 1),
+			new(big.Int).Sub(new(big.Int).Lsh(one, 256), one), new(big.Int).Lsh(one, 255), big.NewInt(127), big.NewInt(128), big.NewInt(255), big.NewInt(256)}
+		for len(svals) < 140 {
+			s := new(big.Int).SetBytes(c.RandBytes(32))
+			if c.Chance(0.3) {
+				s.Rsh(s, uint(c.Intn(250)))
+			}
+			svals = append(svals, s)
 		}
-		svals = append(svals, s)
-	}
-	sOf := func(sig []byte) *big.Int {
-		var v struct{ R, S *big.Int }
-		if _, err := asn1.Unmarshal(sig, &v); err != nil {
-			panic(err)
+		sOf := func(sig []byte) *big.Int {
+			var v struct{ R, S *big.Int }
+			if _, err := asn1.Unmarshal(sig, &v); err != nil {
+				panic(err)
+			}
+			return v.S
 		}
-		return v.S
-	}
-	opt := func(x *big.Int) string {
-		if x == nil {
-			return hx.None()
+		opt := func(x *big.Int) string {
+			if x == nil {
+				return hx.None()
+			}
+			return hx.Some(x.String())
 		}
-		return hx.Some(x.String())
-	}
-	for _, s := range svals {
-		r := new(big.Int).SetBytes(c.RandBytes(32))
-		r.Or(r, one)
-		sig, err := asn1.Marshal(struct{ R, S *big.Int }{r, s})
-		if err != nil {
-			panic(err)
+		for _, s := range svals {
+			r := new(big.Int).SetBytes(c.RandBytes(32))
+			r.Or(r, one)
+			sig, err := asn1.Marshal(struct{ R, S *big.Int }{r, s})
+			if err != nil {
+				panic(err)
+			}
+			low, errL := p256.IsNormalized(sig)
+			if errL != nil {
+				panic(errL)
+			}
+			var ns, ss *big.Int
+			lowAfter := true
+			if out, err := p256.Normalize(sig); err == nil {
+				ns = sOf(out)
+				lowAfter, _ = p256.IsNormalized(out)
+			}
+			if out, err := p256.Swap(sig); err == nil {
+				ss = sOf(out)
+			}
+			inRange := s.Sign() > 0 && s.Cmp(n) < 0
+			cw.Add(hx.App("CertSign_corr.CNorm", s.String(), opt(ns), opt(ss), hx.Bool(low), hx.Bool(lowAfter)), "normalize", inRange,
+				map[string]any{"op": "normalize", "s": s.String(), "normalized": fmt.Sprint(ns), "swapped": fmt.Sprint(ss), "low": low})
 		}
-		low, errL := p256.IsNormalized(sig)
-		if errL != nil {
-			panic(errL)
-		}
-		var ns, ss *big.Int
-		lowAfter := true
-		if out, err := p256.Normalize(sig); err == nil {
-			ns = sOf(out)
-			lowAfter, _ = p256.IsNormalized(out)
-		}
-		if out, err := p256.Swap(sig); err == nil {
-			ss = sOf(out)
-		}
-		inRange := s.Sign() > 0 && s.Cmp(n) < 0
-		cw.Add(hx.App("CertSign_corr.CNorm", s.String(), opt(ns), opt(ss), hx.Bool(low), hx.Bool(lowAfter)), "normalize", inRange,
-			map[string]any{"op": "normalize", "s": s.String(), "normalized": fmt.Sprint(ns), "swapped": fmt.Sprint(ss), "low": low})
-	}
 	}
 
 	// ---- 2. Sign / SignWith ---------------------------------------------------------------------------
